@@ -166,20 +166,19 @@ func checkBV2(t *Toks) string {
 		return "", false
 	}
 	balClass := func() (string, bool) {
-		// a non-last party whose own inputs / blinded issuances carry blinders
+		// no class of imbalance is tolerated; the detail only says where to look first
 		for k := 0; k < len(sh.Parties)-1; k++ {
 			for _, o := range r.Obs[k].Owned {
 				if !bvAllZero(o.AssetBlinder) || !bvAllZero(o.ValueBlinder) {
-					return "nonlast-input-blinders", true
+					return "nonlast-input-blinders", false
 				}
 			}
 			for _, a := range r.Obs[k].IssArgs {
 				if !bvAllZero(a.IssuanceValueBlinder) || !bvAllZero(a.IssuanceTokenBlinder) {
-					return "nonlast-input-blinders", true
+					return "nonlast-input-blinders", false
 				}
 			}
 		}
-		// a confidential input nobody owns cannot balance by construction: not a finding, the request is invalid
 		return "other", false
 	}
 	// every confidential input must be owned by exactly one party, else the request itself is invalid
@@ -227,6 +226,7 @@ func checkBV0(t *Toks) string {
 	}
 	r := bvRunV0(w, stream)
 	if r.Res == "panic" {
+		// a valid selection (indexes in range, outputs with a script) must never crash the blinder
 		prefix := true
 		for k, j := range sel {
 			if j != k {
